@@ -16,5 +16,5 @@ CONSTANTS
   MinEv = 1
   MaxEv = 2
 VIEW View
-INVARIANTS CodecMatchesSpec CodecAdditive KeyCodec RowHostsAdmissible RowSane ShapesExact
+INVARIANTS CodecMatchesSpec CodecAdditive KeyCodec RowHostsAdmissible RowSane
 CHECK_DEADLOCK FALSE
